@@ -75,6 +75,10 @@ template <class RandomAccessIterator, class Callback> struct PlainDistance
     Callback callback;
 };
 
+template <class RandomAccessIterator, class Callback>
+Neighbors find_neighbors_bruteforce_impl(const RandomAccessIterator& begin, const RandomAccessIterator& end,
+                                         Callback callback, IndexType k);
+
 #ifdef TAPKEE_USE_LGPL_COVERTREE
 template <class RandomAccessIterator, class Callback>
 Neighbors find_neighbors_covertree_impl(RandomAccessIterator begin, RandomAccessIterator end, Callback callback,
@@ -90,6 +94,13 @@ Neighbors find_neighbors_covertree_impl(RandomAccessIterator begin, RandomAccess
     CoverTreeWrapper<TreePoint, Callback> cover_tree;
 
     node<TreePoint> ct = cover_tree.batch_create(callback, points);
+
+    if (cover_tree.get_max_node_scale() >= 100)
+    {
+        Logging::instance().message_warning("The distances span more scales than the cover tree supports. "
+                                            "Using brute-force neighbors search.");
+        return find_neighbors_bruteforce_impl(begin, end, callback, k);
+    }
 
     v_array<v_array<TreePoint>> res;
     ++k; // because one of the neighbors will be the actual query point
